@@ -328,6 +328,7 @@ type sys struct {
 	failAt   int     // replay callback invocation to reject in the current pass (-1 none)
 	cbCount  int
 	rejected []int64 // rows of the rejected entry
+	replayed []int64 // rows handed to the buffer by the replay callbacks during the current op
 	decTyped *ingest.MessagePackDecoder
 
 	now      int64 // model seconds
@@ -611,6 +612,9 @@ func (s *sys) colCallback() wal.ColumnarRecoveryCallback {
 			}
 			return fmt.Errorf("injected transient rejection of replayed entry %d", s.failAt)
 		}
+		for _, v := range columns["gid"] {
+			s.replayed = append(s.replayed, toI64(v))
+		}
 		err := s.buf.WriteColumnarDirectNoWAL(ctx, database, measurement, columns)
 		s.settleWorker()
 		return err
@@ -628,6 +632,7 @@ func (s *sys) rowCallback() wal.RecoveryCallback {
 			return fmt.Errorf("injected transient rejection of replayed entry %d", s.failAt)
 		}
 		for _, rec := range records {
+			s.replayed = append(s.replayed, toI64(rec["gid"]))
 			measurement, _ := rec["_measurement"].(string)
 			if measurement == "" {
 				continue
@@ -912,7 +917,7 @@ func (s *sys) apply(o op) (string, string, obsState) {
 	drained := 0
 	isRestart := o.kind == "restart" || o.kind == "restartf"
 	needUp := o.kind != "adv" && o.kind != "mode" && o.kind != "stall" && o.kind != "late" && !isRestart
-	s.failAt, s.cbCount, s.rejected = -1, 0, nil
+	s.failAt, s.cbCount, s.rejected, s.replayed = -1, 0, nil, nil
 	if o.kind == "tickf" || o.kind == "restartf" {
 		s.failAt = o.n
 	}
